@@ -30,10 +30,13 @@ def run(tier, seed, replay):
     # whole-domain binding of the pure pieces EdgeF is built from (exact function equality)
     t = vlib.tlc(os.path.join(vlib.SPEC, "mc", "MC_CtlTables.tla"), os.path.join(vlib.SPEC, "mc", "MC_CtlTables.cfg"), timeout=1800)
     dec = [None] * 512
+    irs = [None] * 512
     table = {}
     for row in vlib.tlc_replay_lines(t.out):
         if row["kind"] == "decode":
             dec[row["a"]] = row["row"]
+        elif row["kind"] == "irstep":
+            irs[row["a"]] = row["row"]
         else:
             table.setdefault(row["class"], [None] * 256)[row["ir"]] = row["row"]
     classes = sorted(table.keys())
@@ -49,6 +52,12 @@ def run(tier, seed, replay):
     if n["mismatches"] or n["missing_class"]:
         v.violation("bind:nextaddr", "real next-address / interrupt-clear logic differs from Signals.tla on %d of %d rows, e.g. %s"
                     % (n["mismatches"], n["rows"], json.dumps(n["first"][:3])), n["first"])
+    ip = os.path.join(vlib.WORK, "irstep_ref.json")
+    json.dump(irs, open(ip, "w"))
+    ir = vlib.vh_json(["irstep-check", ip])
+    if ir["mismatches"]:
+        v.violation("bind:irstep", "instruction-register update / halt detection of one real clock edge differs from Micro.tla on %d (word, bus byte) pairs, "
+                    "e.g. %s" % (ir["mismatches"], json.dumps(ir["first"][:3])), ir["first"])
     ref = os.path.join(vlib.WORK, "alu_ref.json")
     a = vlib.tlc(os.path.join(vlib.SPEC, "mc", "MC_Alu.tla"), os.path.join(vlib.SPEC, "mc", "MC_Alu.cfg"), env={"OUT": ref}, timeout=900)
     al = vlib.vh_json(["alu-check", ref])
